@@ -120,6 +120,29 @@ Theorem C10_static_single_entry :
     (length (s_buf (final save load c (init keys fs0) ops)) <= 1)%nat.
 Proof. intros P F. exact (@static_single P F). Qed.
 
+(** A push only appends — also a SECOND publication for the time of the latest one (a source that
+    corrects itself, a push-based component notified twice per step): the buffer grows by one entry
+    at its end, no older entry leaves it (entries leave only through eviction / finalize, which
+    release their file or their RAM share — so all theorems above hold for such sequences too: they
+    quantify over arbitrary push times), and the file system changes only by the write of the new
+    file when the new entry is spilled.  [c_dir] is whatever [memory_location or ""] resolves to:
+    the configured location, or the working directory when none is configured. *)
+Theorem C10_push_appends :
+  forall (P F : Type) (save : P -> F) (c : config) (s : state P F) (t : Z) (p : P) (size : Z),
+    refused (c_kind c) (s_buf s) = false ->
+    exists e,
+      s_buf (push save c s t p size) = s_buf s ++ [(t, e)]
+      /\ is_spilled e = spills (c_limit c) (s_total s) size
+      /\ (is_spilled e = true ->
+          e = OnDisk (c_dir c, c_sid c, s_counter s)
+          /\ s_fs (push save c s t p size) = fs_write (c_dir c, c_sid c, s_counter s) (save p) (s_fs s)
+          /\ s_counter (push save c s t p size) = S (s_counter s))
+      /\ (is_spilled e = false ->
+          e = InRam p size
+          /\ s_fs (push save c s t p size) = s_fs s
+          /\ s_total (push save c s t p size) = s_total s + size).
+Proof. intros P F. exact (@push_appends P F). Qed.
+
 (* ------------------------------------------------------------------ *)
 (** Non-vacuity: concrete runs meeting all hypotheses, with spilled entries that are read back,
     evicted and finalized, next to foreign files. *)
@@ -190,6 +213,25 @@ Example C10_static_nonvacuous :
   /\ s_buf (final idn idn (unlimited st_cfg) (init [0; 1]%nat ex_fs0) st_ops) = [(0, InRam 10%nat 48)].
 Proof. vm_compute. repeat split; reflexivity. Qed.
 
+(** two publications per time stamp (limit 0, NextTime): both are buffered and spilled, a request at
+    the duplicated time is answered with the first of the two, eviction and finalize remove every file *)
+Definition dup_cfg : config := mkc KNext (Some 0) 3%nat 7%nat.
+Definition dup_ops : list (op nat nat) :=
+  [Push 0 10%nat 8; Push 10 11%nat 8; Push 10 12%nat 8; Pull 0 10; Push 20 13%nat 8; Push 20 14%nat 8; Pull 0 15].
+
+Example C10_duplicate_times_nonvacuous :
+  refused (c_kind dup_cfg) (s_buf (final idn idn dup_cfg (init [0%nat] ex_fs0) (firstn 2 dup_ops))) = false
+  /\ s_buf (final idn idn dup_cfg (init [0%nat] ex_fs0) (firstn 3 dup_ops))
+     = [(0, OnDisk (3, 7, 0)%nat); (10, OnDisk (3, 7, 1)%nat); (10, OnDisk (3, 7, 2)%nat)]
+  /\ delivered idn idn dup_cfg (init [0%nat] ex_fs0) dup_ops
+     = [None; None; None; Some (Some [Some 11%nat]); None; None; Some (Some [Some 13%nat])]
+  /\ delivered idn idn (unlimited dup_cfg) (init [0%nat] []) dup_ops
+     = delivered idn idn dup_cfg (init [0%nat] ex_fs0) dup_ops
+  /\ s_fs (final idn idn dup_cfg (init [0%nat] ex_fs0) dup_ops)
+     = ex_fs0 ++ [((3, 7, 2)%nat, 12%nat); ((3, 7, 3)%nat, 13%nat); ((3, 7, 4)%nat, 14%nat)]
+  /\ s_fs (final idn idn dup_cfg (init [0%nat] ex_fs0) (dup_ops ++ [Finalize])) = ex_fs0.
+Proof. vm_compute. repeat split; reflexivity. Qed.
+
 Print Assumptions C10_transparent.
 Print Assumptions C10_reads_succeed.
 Print Assumptions C10_files_confined.
@@ -199,3 +241,4 @@ Print Assumptions C10_foreign_untouched.
 Print Assumptions C10_fs_restored.
 Print Assumptions C10_static_refusal_independent.
 Print Assumptions C10_static_single_entry.
+Print Assumptions C10_push_appends.
